@@ -9,6 +9,7 @@ s->c : every scenario of the model (mode x input shape x conflict x fault step x
        finished run's output must equal the library merge.
 """
 import io
+import re
 import json
 import os
 import shutil
@@ -75,6 +76,11 @@ def make_notebooks():
     rr = json.loads(json.dumps(b))
     rr["metadata"]["counts"] = {"n": 1.0, "flag": 1, "ratio": 2.0}
     out["numkind"] = (b, nbformat.from_dict(json.loads(json.dumps(b))), nbformat.from_dict(rr))
+    # degenerate triples: nothing changed / only one side changed (the result equals one of the inputs)
+    cb = concretize.concrete(base)
+    out["same"] = (cb, concretize.concrete(base), concretize.concrete(base))
+    out["remote_only"] = (cb, concretize.concrete(base), concretize.concrete(edit(1, src=2, att=2)))
+    out["local_only"] = (cb, concretize.concrete(edit(2, src=1, outs=6)), concretize.concrete(base))
     return out
 
 
@@ -160,6 +166,81 @@ def read_bytes(p):
         return None
 
 
+ID_RE = re.compile(rb'("id": ")([^"]*)(")')
+
+
+def ids_in(*blobs):
+    keep = set()
+    for b in blobs:
+        if b:
+            keep.update(m.group(2) for m in ID_RE.finditer(b))
+    return keep
+
+
+def norm_bytes(data, keep):
+    """ids the merge generated (conflict marker cells get a random one per run) -> placeholders in order of appearance"""
+    if data is None:
+        return None
+    seen = {}
+
+    def sub(m):
+        i = m.group(2)
+        if i in keep:
+            return m.group(0)
+        if i not in seen:
+            seen[i] = b"fresh-%d" % len(seen)
+        return m.group(1) + seen[i] + m.group(3)
+    return ID_RE.sub(sub, data)
+
+
+def norm_obj(x, keep, dedupe_cells=False):
+    """the same on a JSON value (dict keys visited in sorted order).  dedupe_cells: a cell id that repeats an
+    earlier cell's id counts as generated (what nbformat's validate-on-write does to duplicate ids)."""
+    seen = {}
+    x = json.loads(json.dumps(x))
+    if dedupe_cells and isinstance(x, dict):
+        used = set()
+        for n, c in enumerate(x.get("cells", ())):
+            if "id" in c:
+                if c["id"] in used:
+                    c["id"] = "\0dup-%d" % n
+                used.add(c["id"])
+    kept = {k.decode("utf8", "replace") for k in keep}
+
+    def walk(v):
+        if isinstance(v, list):
+            return [walk(e) for e in v]
+        if isinstance(v, dict):
+            out = {}
+            for k in sorted(v):
+                if k == "id" and isinstance(v[k], str) and v[k] not in kept:
+                    out[k] = seen.setdefault(v[k], "fresh-%d" % len(seen))
+                else:
+                    out[k] = walk(v[k])
+            return out
+        return v
+    return walk(x)
+
+
+def same_as_library(text, lib_value, keep):
+    """'equal' | 'dup-id' (equal once duplicate cell ids in the library result are renamed) | 'differs'"""
+    from .encode import canon
+    try:
+        got = json.loads(text)
+        if isinstance(got, dict):
+            # the file stores multi-line strings as lists of lines; undo that without validating / repairing
+            from nbformat.v4.rwbase import rejoin_lines, strip_transient
+            got = to_plain(rejoin_lines(nbformat.from_dict(got)))
+    except Exception:
+        return "differs"
+    lib_plain = to_plain(lib_value) if not isinstance(lib_value, list) else json.loads(json.dumps(lib_value))
+    if canon(norm_obj(got, keep)) == canon(norm_obj(lib_plain, keep)):
+        return "equal"
+    if isinstance(lib_plain, dict) and canon(norm_obj(got, keep)) == canon(norm_obj(lib_plain, keep, dedupe_cells=True)):
+        return "dup-id"
+    return "differs"
+
+
 def classify_out(before, after, reference):
     if after is None:
         return "orig" if before is None else "removed"
@@ -199,7 +280,8 @@ def run():
             if m == "driver" and s not in ("normal", "empty_base"):
                 continue
             for triple, strategy in (("conflict", None), ("clean", None), ("conflict", "use-local"),
-                                     ("conflict", "use-remote"), ("clean", "use-base"), ("numkind", None)):
+                                     ("conflict", "use-remote"), ("clean", "use-base"), ("numkind", None),
+                                     ("same", None), ("remote_only", None), ("local_only", None)):
                 if s == "both_null" and (triple, strategy) != ("clean", None):
                     continue
                 base_cases.append((m, s, triple, strategy))
@@ -211,7 +293,9 @@ def run():
         points = sorted(steps_for.get((m, s), ()))
         for j, (st, k) in enumerate(points):
             ks = kinds if not chk.quick else (kinds[(n + j) % 4], "Kill" if (n + j) % 3 == 0 else kinds[(n + j + 1) % 4])
-            if chk.quick and (strategy is not None or triple == "numkind"):
+            if triple in ("same", "remote_only", "local_only"):
+                ks = ()                      # fault-free runs only
+            elif chk.quick and (strategy is not None or triple == "numkind"):
                 ks = (kinds[(n + j) % 4],) if (n + j) % 4 == 0 else ()
             for kd in sorted(set(ks)):
                 scenarios.append(Scenario("s%d" % n, m, s, triple, strategy, {"step": st, "kind": kd, "k": k}))
@@ -231,12 +315,13 @@ def run():
         d, paths, out, entry, argv = setup_files(work, sc, nbs)
         spec = {"repo": REPO, "entry": entry, "argv": argv, "out": out, "both_null": sc.shape == "both_null"}
         before = read_bytes(out) if out else None
+        keep = ids_in(*[read_bytes(q) for q in paths.values() if q != NULL])
         libres = lib(paths, sc)           # before the run: the driver overwrites the local file
         p = run_driver(d, dict(spec, fault=sc.fault))
         after = read_bytes(out) if out else None
         res = {"rc": p.returncode, "before": before, "after": after, "lib": libres,
                "fired": sc.fault is None or b"FAULT-FIRED" in p.stderr, "stdout": p.stdout,
-               "stderr": p.stderr[-400:].decode("utf8", "replace"), "paths": paths, "out": out}
+               "stderr": p.stderr[-400:].decode("utf8", "replace"), "paths": paths, "out": out, "keep": keep}
         if sc.fault is None:
             refs[(sc.mode, sc.shape, sc.triple, sc.strategy)] = after
         else:
@@ -259,34 +344,27 @@ def run():
         if sc.fault is None:
             chk.count(key_info, nontrivial=True)
             reference = res["after"]
-            out_cls = classify_out(res["before"], res["after"], reference if ex_cls != "signal" else None)
+            out_cls = classify_out(res["before"], res["after"], reference if ex_cls != "signal" else None)   # same bytes: no ids to normalise
             if out_cls == "complete" and sc.mode in ("out", "driver"):
                 # the complete result must be well-formed JSON equal to the library merge
-                try:
-                    json.loads(res["after"].decode("utf8"))         # well-formed JSON
-                    same = _canon_nb(res["after"].decode("utf8")) == _canon_nb(nbformat.writes(merged))
-                except Exception:
-                    same = False
-                if not same:
-                    chk.violation("finished-output-differs-from-library-merge:%s" % sc.mode,
+                same = same_as_library(res["after"].decode("utf8", "replace"), merged, res["keep"])
+                if same != "equal":
+                    chk.violation("output-differs-from-library-merge:duplicate-cell-id-renamed-on-write" if same == "dup-id"
+                                  else "finished-output-differs-from-library-merge:%s" % sc.mode,
                                   "finished run left an output that is not the library merge result", key_info)
                     continue
             if sc.mode == "decisions" and out_cls == "complete":
-                try:
-                    same = json.loads(res["after"].decode("utf8")) == json.loads(json.dumps(decisions))
-                except Exception:
-                    same = False
-                if not same:
+                same = same_as_library(res["after"].decode("utf8", "replace"), list(decisions), res["keep"])
+                if same != "equal":
                     chk.violation("finished-decisions-differ-from-library:%s" % sc.mode,
                                   "--decisions --out file differs from the library's decision list", key_info)
                     continue
             if sc.mode == "stdout" and ex_cls != "signal" and sc.shape != "both_null":
-                try:
-                    same = _canon_nb(res["stdout"].decode("utf8")) == _canon_nb(nbformat.writes(merged))
-                except Exception:
-                    same = False
-                if not same:
-                    chk.violation("stdout-differs-from-library-merge", "notebook printed to stdout is not the library merge",
+                same = same_as_library(res["stdout"].decode("utf8", "replace"), merged, res["keep"])
+                if same != "equal":
+                    chk.violation("output-differs-from-library-merge:duplicate-cell-id-renamed-on-write" if same == "dup-id"
+                                  else "stdout-differs-from-library-merge",
+                                  "notebook printed to stdout is not the library merge",
                                   key_info)
                     continue
             key = (sc.mode, sc.shape, conf, "none", "none", 0)
@@ -295,7 +373,8 @@ def run():
                 not_fired += 1
                 continue
             chk.count(key_info, nontrivial=True)
-            out_cls = classify_out(res["before"], res["after"], res.get("reference"))
+            out_cls = classify_out(res["before"], norm_bytes(res["after"], res["keep"]) if res["after"] != res["before"] else res["after"],
+                                   norm_bytes(res.get("reference"), res["keep"]))
             key = (sc.mode, sc.shape, conf, sc.fault["step"], sc.fault["kind"], sc.fault["k"] if sc.fault["step"] == "Write" else 0)
         ok = key in allowed and (ex_cls, out_cls) in allowed[key]
         if not ok:
